@@ -393,15 +393,15 @@ func (g *mgen) genReqResources() *api.LinuxResources {
 
 // MCase is one request with its scripts.
 type MCase struct {
-	ID     string               `json:"id"`
-	Kind   string               `json:"kind"`
-	Spec   *rspec.Spec          `json:"spec,omitempty"`
-	Pod    *api.PodSandbox      `json:"pod"`
-	Ctr    *api.Container       `json:"ctr"`
-	Res    *api.LinuxResources  `json:"res,omitempty"`
-	Resp   []PResp              `json:"resp"`
-	Tags   []string             `json:"tags,omitempty"`
-	Others []string             `json:"others,omitempty"` // ids of third-party containers
+	ID     string              `json:"id"`
+	Kind   string              `json:"kind"`
+	Spec   *rspec.Spec         `json:"spec,omitempty"`
+	Pod    *api.PodSandbox     `json:"pod"`
+	Ctr    *api.Container      `json:"ctr"`
+	Res    *api.LinuxResources `json:"res,omitempty"`
+	Resp   []PResp             `json:"resp"`
+	Tags   []string            `json:"tags,omitempty"`
+	Others []string            `json:"others,omitempty"` // ids of third-party containers
 }
 
 // genOpts steers a random case.
